@@ -403,24 +403,34 @@ def gen_model(rng, p: Params | None = None) -> ir.Model:
         model.model_version = 3 + rng.randrange(3)
         model.doc_string = "model doc"
         model.domain = "verif.models"
-        for f in functions:
-            f.doc_string = "function doc"
-            f.metadata_props["fk"] = "fv"
-        style = rng.randrange(4)  # which kinds of metadata are present varies: graph level, node level, doc strings only
-        if style != 1:
-            graph.metadata_props["gk"] = "gv"
-        for i_, n in enumerate(b.all_nodes[:4]):
-            if style == 1:
-                n.doc_string = "ndoc"  # doc strings only
-                continue
-            # metadata and doc string do not always come together
-            if i_ % 3 != 1:
-                n.metadata_props["nk"] = "nv"
-            if i_ % 3 != 2:
-                n.doc_string = "ndoc"
-        for v in b.all_values[:3]:
-            v.metadata_props["vk"] = "vv"
-            v.doc_string = "vdoc"
+        style = rng.randrange(5)  # which kinds of metadata are present varies: graph level, node level, doc strings only, owners only
+        if style == 4:
+            # documentation on the OWNERS only (main graph, nested bodies, functions), as doc strings without metadata:
+            # no node and no value carries anything
+            model.metadata_props.clear()
+            graph.doc_string = "graph doc"
+            for sg in graph.subgraphs():
+                sg.doc_string = "body doc"
+            for f in functions:
+                f.doc_string = "function doc"
+        else:
+            for f in functions:
+                f.doc_string = "function doc"
+                f.metadata_props["fk"] = "fv"
+            if style != 1:
+                graph.metadata_props["gk"] = "gv"
+            for i_, n in enumerate(b.all_nodes[:4]):
+                if style == 1:
+                    n.doc_string = "ndoc"  # doc strings only
+                    continue
+                # metadata and doc string do not always come together
+                if i_ % 3 != 1:
+                    n.metadata_props["nk"] = "nv"
+                if i_ % 3 != 2:
+                    n.doc_string = "ndoc"
+            for v in b.all_values[:3]:
+                v.metadata_props["vk"] = "vv"
+                v.doc_string = "vdoc"
     # functions are separate scopes: their values may legally carry the names of main-graph values
     # (including the outputs of the very nodes that call them)
     fo = p.get("func_name_overlap", 0.0)
